@@ -63,6 +63,11 @@ let hex_of_bytes (l : z list) : string =
   List.iter (fun b -> Buffer.add_string buf (Printf.sprintf "%02x" (int_of_z b))) l;
   Buffer.contents buf
 
+let hex_of_bytes_plain (l : z list) : string =
+  let buf = Buffer.create (2 * List.length l) in
+  List.iter (fun b -> Buffer.add_string buf (Printf.sprintf "%02x" (int_of_z b))) l;
+  Buffer.contents buf
+
 (* ---- native MD4 (instantiates the model's hash parameter H for speed; the
    Gallina md4 is cross-checked against the implementation by component
    "md4", and the theorems hold for every H) ---- *)
@@ -261,6 +266,88 @@ let run_gensums fields = match fields with
     hex_of_bytes (enc_sums h sums)
   | _ -> failwith "gensums: want 2 fields"
 
+
+(* ---- generator file-system operations for one entry ---- *)
+let now_sentinel = z_of_string "-4000000000000000000"
+let kind_name (k : lkind) : string = match k with
+  | KDir -> "dir" | KReg -> "reg" | KLnk -> "lnk"
+  | KOther t -> if t = c_S_IFIFO then "fifo" else if t = c_S_IFSOCK then "sock"
+                else if t = c_S_IFCHR then "chr" else if t = c_S_IFBLK then "blk" else "other"
+let kind_of_name (s : string) : lkind = match s with
+  | "dir" | "dir-nonempty" -> KDir | "reg" -> KReg | "lnk" -> KLnk
+  | "fifo" -> KOther c_S_IFIFO | "sock" -> KOther c_S_IFSOCK | "chr" -> KOther c_S_IFCHR | "blk" -> KOther c_S_IFBLK
+  | _ -> failwith ("bad kind " ^ s)
+let oct_of_z (v : z) : string = Printf.sprintf "%o" (int_of_z v)
+let show_pstate (s : pstate) : string = match s with
+  | PAbsent -> "absent"
+  | PNode (st, _) ->
+    let k = kind_name st.l_kind in
+    let perm = if st.l_kind = KLnk then "777" else oct_of_z st.l_perm in
+    let mt = if st.l_kind = KLnk then "-" else if st.l_mtime = now_sentinel then "now" else string_of_z st.l_mtime in
+    Printf.sprintf "%s:%s:%s:%s:%s:%s:%s" k perm mt (string_of_z st.l_uid) (string_of_z st.l_gid)
+      (hex_of_bytes st.l_link) (string_of_z st.l_rdev)
+let parse_gopts (bits : string) (umask : string) : gopts * bool * bool =
+  let b i = bits.[i] = '1' in
+  ({ g_dry = b 0; g_links = b 1; g_devices = b 2; g_specials = b 3; g_perms = b 4; g_times = b 5;
+     g_uid = b 6; g_gid = b 7; g_am_root = true; g_umask = z_of_string umask }, b 8, b 9)
+let parse_prior (s : string) : pstate =
+  match split ':' s with
+  | ["none"] -> PAbsent
+  | [k; perm; mt; u; g; lk; rd; content] ->
+    let kind = kind_of_name k in
+    let isdev = (k = "chr" || k = "blk") in
+    PNode ({ l_kind = kind; l_perm = (if k = "lnk" then z_of_int 511 else z_of_string perm); l_mtime = z_of_string mt;
+             l_uid = z_of_string u; l_gid = z_of_string g;
+             l_link = (if k = "lnk" then bytes_of_hex lk else []);
+             l_rdev = (if isdev then z_of_string rd else Z0); l_nonempty = (k = "dir-nonempty") },
+           (if k = "reg" then bytes_of_hex content else []))
+  | _ -> failwith ("bad prior " ^ s)
+let run_genops fields = match fields with
+  | [bits; umask; ent; prior] ->
+    let (o, ac, it) = parse_gopts bits umask in
+    let e = (match split ':' ent with
+      | [l; mt; md; u; g; rd; lk; cs] ->
+        { e_name = [z_of_int 101]; e_len = z_of_string l; e_mtime = z_of_string mt; e_mode = z_of_string md;
+          e_uid = z_of_string u; e_gid = z_of_string g; e_rdev = z_of_string rd; e_link = bytes_of_hex lk;
+          e_csum = bytes_of_hex cs }
+      | _ -> failwith "bad entry") in
+    let (s', rq) = entry_step h_native o ac it e now_sentinel (parse_prior prior) in
+    (match rq with
+     | ReqError -> "ERR"
+     | _ -> show_pstate s' ^ "|" ^
+            (match rq with ReqNone -> "none" | ReqFull -> if o.g_dry then "dry-request" else "full"
+                         | ReqDelta -> if o.g_dry then "dry-request" else "delta" | ReqError -> "ERR"))
+  | _ -> failwith "genops: want 4 fields"
+
+
+(* ---- sender request loop over a whole session ---- *)
+let run_ssession fields = match fields with
+  | [seed; dry; files; req] ->
+    let fl = List.map bytes_of_hex (String.split_on_char ';' files) in
+    let rq = bytes_of_hex req in
+    (match run_sender_session h_native (z_of_string seed) chunk_size (dry = "1") fl rq with
+     | SessDone (out, rest) -> Printf.sprintf "OK:%d:%s" (List.length rq - List.length rest) (hex_of_bytes_plain out)
+     | SessErr (out, (SeCrash | SeFuel)) -> "MODELFAIL"
+     | SessErr (out, _) -> "ERR:" ^ hex_of_bytes_plain out)
+  | _ -> failwith "ssession: want 4 fields"
+
+
+(* ---- receiver commit + metadata for one file ---- *)
+let run_recvmeta fields = match fields with
+  | [bits; perm; mtime; prior; data; good] ->
+    let b i = bits.[i] = '1' in
+    let o = { g_dry = b 0; g_links = true; g_devices = true; g_specials = true; g_perms = b 1; g_times = b 2;
+              g_uid = false; g_gid = false; g_am_root = true; g_umask = z_of_int 18 } in
+    let e = { e_name = [z_of_int 102]; e_len = Z0; e_mtime = z_of_string mtime;
+              e_mode = Z.add (z_of_int 32768) (z_of_string perm);
+              e_uid = Z0; e_gid = Z0; e_rdev = Z0; e_link = []; e_csum = [] } in
+    let s = parse_prior prior in
+    let oldp = (match s with PNode (st, _) -> Some st.l_perm | PAbsent -> None) in
+    let ops = recv_ops o e (bytes_of_hex data) (good = "1") oldp now_sentinel in
+    let s' = run_ops e.e_name now_sentinel s ops in
+    show_pstate s' ^ "|" ^ (match s' with PNode (_, c) -> hex_of_bytes c | PAbsent -> "-")
+  | _ -> failwith "recvmeta: want 6 fields"
+
 (* ---- option parser ---- *)
 let run_popt fields = match fields with
   | [argv] ->
@@ -387,6 +474,9 @@ let dispatch comp fields =
   | "noop" -> "ok"
   | "decision" -> run_decision fields
   | "gensums" -> run_gensums fields
+  | "genops" -> run_genops fields
+  | "recvmeta" -> run_recvmeta fields
+  | "ssession" -> run_ssession fields
   | "flist_dec" -> run_flist_dec fields
   | "flist_enc" -> run_flist_enc fields
   | _ -> failwith ("unknown component " ^ comp)
